@@ -79,6 +79,8 @@ func main() {
 		runC14(*out, *seed, *tier)
 	case "C05":
 		runC05(*out, *seed, *tier, *repo)
+	case "C06":
+		runC06(*out, *seed, *tier)
 	case "C04":
 		runC04(*out, *seed, *tier)
 	default:
